@@ -32,7 +32,7 @@ enum SutKind {            /* how the class of a state is written */
 	K_PARTIAL2            /* defines exitGuard, reenter, preUpdate, react, query only                */
 };
 
-enum SutPayloadKind { P_VOID, P_U8, P_I32, P_F64, P_C3, P_B24, P_A16, P_A32 };
+enum SutPayloadKind { P_VOID, P_U8, P_I32, P_F64, P_C3, P_B24, P_A16, P_A32, P_G300 };
 enum SutCtxKind { X_EMPTY, X_VALUE, X_REF, X_PTR };
 
 typedef struct SutTrans {
@@ -72,6 +72,7 @@ typedef struct SutView {
 	SutTrans previous; uint8_t has_previous;  /* control.previousTransitions(), history builds    */
 	uint8_t active[32];               /* bit i = control.isActive(i), i < N                       */
 	uint8_t active_tmpl_ok;           /* control.isActive<St<cls>>() == control.isActive(cls)     */
+	uint8_t active_invalid;           /* control.isActive(INVALID_STATE_ID), the root's id        */
 	SutPlan plan;                     /* read through the const plan() of this control            */
 	uint8_t plan_m_same;              /* mutable plan() iterates identically (plan/full/guard)    */
 	/* outcome of the previous action performed inside this very hook invocation */
